@@ -59,3 +59,24 @@ def apply(cfg, summaries=None, drop=()):
         if k not in drop:
             cfg.summaries[k] = v
     return cfg
+
+
+def shared(mod, labels):
+    """contracts defined in another contract module, verified under THAT module's configuration (so a check can claim them without
+    its own configuration interfering)"""
+    def cfg_of(cfg):
+        cfg.summaries.clear(); cfg.pure_models.clear(); cfg.field_types.clear(); cfg.scope_key_types.clear(); cfg.summary_result_tags.clear()
+        cfg.pure_ctors.clear(); cfg.inline_star_ctors.clear(); cfg.opaque_globals.clear(); cfg.class_attr_models.clear(); cfg.kwdict_copy_as_dict = False
+        cfg.hooks.clear()
+        mod.config(cfg)
+    out = []
+    for c in mod.contracts():
+        if any(c.label == l or c.label.startswith(l + '[') for l in labels):
+            inner = c.kw.get('config')
+            def both(cfg, inner=inner):
+                cfg_of(cfg)
+                if inner:
+                    inner(cfg)
+            c.kw = dict(c.kw, config=both)
+            out.append(c)
+    return out
